@@ -29,6 +29,7 @@ TV_HAS(has_offset_, std::declval<T&>().offset_)
 TV_HAS(has_a, std::declval<T&>().a)
 TV_HAS(has_ok, std::declval<T&>().ok)
 TV_HAS(has_tv_plain, std::declval<T&>().tv_plain)
+TV_HAS(has_strides_fn, std::declval<T&>().strides_fn)
 #undef TV_HAS
 
 template <class T> struct dependent_false : std::false_type {};
@@ -73,6 +74,9 @@ template <class R, class C> bool eq(const R& real, const C& raw)
     if constexpr (has_e2<C>::value) ok = ok && eq(std::get<2>(real), raw.e2);
     if constexpr (has_e3<C>::value) ok = ok && eq(std::get<3>(real), raw.e3);
     return ok;
+  } else if constexpr (has_strides_fn<C>::value) {                        // C20 dynamic_ndarray observation (inst/c20d.cpp)
+    return eq(real.shape, raw.shape) && eq(real.strides, raw.strides) && eq(real.strides_fn, raw.strides_fn)
+        && eq(real.numel, raw.numel) && eq(real.numel_fn, raw.numel_fn) && eq(real.dsize, raw.dsize) && eq(real.dim, raw.dim);
   } else if constexpr (has_a<C>::value && has_ok<C>::value) {            // C20 result pair {object a; bool ok}
     return eq(real.a, raw.a) && eq(real.ok, raw.ok);
   } else if constexpr (has_data_<C>::value && has_shape_<C>::value && has_strides_<C>::value && has_offset_<C>::value) {  // generic ndarray_t state
